@@ -143,6 +143,28 @@ func (e *Env) spellCorpus(label string, sizes []int, perSizeAll bool, withNearMi
 					}
 				}
 				grp.variants = append(grp.variants, spellVariant{s: e.spellSentence(lang, idx, "mixed", " ", r), form: "mixed", sep: " "})
+				// exactly k of the separators typed as another space-like code point (so that the
+				// number of U+0020-separated pieces is itself a plausible word count)
+				for _, k := range []int{1, 3, 6, 9, 12} {
+					if k >= len(idx) {
+						continue
+					}
+					ws := strings.Split(e.spellSentence(lang, idx, "NFKD", "\x00", r), "\x00")
+					alt := []string{"\u3000", "\u00a0", "\u2003"}[(k+sentenceNo)%3]
+					var sb strings.Builder
+					for i, w := range ws {
+						if i > 0 {
+							// spread the k alternative separators evenly
+							if (i*k)/(len(ws)-1) != ((i-1)*k)/(len(ws)-1) {
+								sb.WriteString(alt)
+							} else {
+								sb.WriteString(" ")
+							}
+						}
+						sb.WriteString(w)
+					}
+					grp.variants = append(grp.variants, spellVariant{s: sb.String(), form: "NFKD", sep: alt})
+				}
 				// another code point that normalises to U+0020 as separator
 				sl := string(g.spaceLike[r.Intn(len(g.spaceLike))])
 				grp.variants = append(grp.variants, spellVariant{s: e.spellSentence(lang, idx, "NFC", sl, r), form: "NFC", sep: sl})
